@@ -55,7 +55,11 @@ def gen(rng):
     acts, connected, dead = [], False, False
     for _ in range(rng.choice([3, 6, 10, rng.randrange(1, 21)])):
         if connected:
-            a = rng.choice(["opeof", "disc", "opeof"] if dead else ["op", "opx", "disc", "disc", "op", "opeof"])
+            a = rng.choice(["opeof", "disc", "opeof", "opeofdown"] if dead else ["op", "opx", "disc", "disc", "op", "opeof", "opdown", "opchat"])
+            if a == "opchat":       # what the device went on sending sits unread on the connection: the next thing is a disconnect
+                acts += ["opchat", "disc"]
+                connected = False
+                continue
             dead = dead or a == "opeof"
         else:
             a = rng.choice(["cok", "cok", "cref", "crefs", "disc", "with", "withx", "withref", "withop", "ccancel"])
@@ -92,7 +96,9 @@ def _in_domain(acts):
     next disconnect): what an operation does on a client that was never connected is not part of the property or of the model"""
     connected = dead = False
     for a in acts:
-        if a in ("op", "opx") and (not connected or dead):
+        if a in ("op", "opx", "opdown", "opchat") and (not connected or dead):
+            return False
+        if a == "opeofdown" and not (connected and dead):
             return False
         if a == "opeof":
             if not connected:
@@ -155,6 +161,7 @@ def with_another_client(rng, a):
 
 FIXED += [{"api": t, "acts": acts} for t in ("type1", "type2") for acts in (
     ["ccancel", "cok", "op", "disc", "ccancel", "ccancel", "with", "cok", "disc"],
+    ["cok", "opdown", "op", "opeof", "opeofdown", "opeofdown", "disc", "cok", "opchat", "disc", "cok", "op", "disc"],
     ["o:copy", "cok", "o:cok", "op", "o:disc", "op", "disc", "o:cok", "o:op", "cok", "disc", "o:disc"],
     ["cok", "o:cok", "op", "o:op", "op", "o:disc", "op", "disc", "o:cok", "cok", "o:disc", "op", "disc"],
     ["o:cok", "cok", "op", "disc", "o:op", "with", "withop", "o:disc", "cref", "o:cok", "withx", "o:disc"])]
